@@ -15,7 +15,9 @@ PROPERTY = 'C19'
 LEVEL = 'exploration'
 RULE = (
     'random histories of 5-60 operations (put / get with amounts, items, priorities, filters '
-    'incl. filters matching nothing; request / release / cancel / context-manager exit) against '
+    'incl. filters matching nothing; request / release / cancel / context-manager exit / '
+    'interrupting the requesting process inside its `with request:` block, also in the time step '
+    'in which it is granted) against '
     'Container, Store, PriorityStore, FilterStore, Resource, PriorityResource and '
     'PreemptiveResource with capacities {1, 2, 3, inf}; every request is issued by its own '
     'process (so preemption interrupts a distinct process); operations happen one per time step '
@@ -64,10 +66,10 @@ def make_case(seed, index, tier):
         if kind == 'container':
             if roll < 0.45:
                 op.update(op='put', amount=rng.choice([1, 1, 2, 3]))
-            elif roll < 0.9:
+            elif roll < 0.86:
                 op.update(op='get', amount=rng.choice([1, 1, 2, 3]))
             elif requests:
-                op.update(op='cancel', target=rng.choice(requests))
+                op.update(op=rng.choice(['cancel', 'interrupt']), target=rng.choice(requests))
             else:
                 op.update(op='put', amount=1)
         elif kind in ('store', 'prioritystore', 'filterstore'):
@@ -75,12 +77,12 @@ def make_case(seed, index, tier):
                 item_no += 1
                 item = item_no if kind != 'prioritystore' else [rng.randint(0, 3), item_no]
                 op.update(op='put', item=item)
-            elif roll < 0.9:
+            elif roll < 0.86:
                 op.update(op='get')
                 if kind == 'filterstore':
                     op['filter'] = rng.choice(['any', 'any', 'even', 'odd', 'big', 'none'])
             elif requests:
-                op.update(op='cancel', target=rng.choice(requests))
+                op.update(op=rng.choice(['cancel', 'interrupt']), target=rng.choice(requests))
             else:
                 op.update(op='get')
                 if kind == 'filterstore':
@@ -92,13 +94,24 @@ def make_case(seed, index, tier):
                     op['priority'] = rng.choice([0, 1, 1, 2, 3])
                 if kind == 'preemptive':
                     op['preempt'] = rng.random() < 0.7
-            elif roll < 0.85:
+            elif roll < 0.8:
                 op.update(op='release', target=rng.choice(requests))
-            elif roll < 0.93:
+            elif roll < 0.87:
                 op.update(op='cancel', target=rng.choice(requests))
-            else:
+            elif roll < 0.93 or kind == 'preemptive':
                 op.update(op='exit', target=rng.choice(requests))
-        if op['op'] in ('release', 'cancel', 'exit'):
+            else:
+                # the requesting process is interrupted and leaves its `with request:` block
+                # by that exception - possibly in the very time step in which it is granted
+                op.update(op='interrupt', target=rng.choice(requests))
+        if op['op'] == 'interrupt' and ops and ops[-1]['op'] == 'release' and rng.random() < 0.6:
+            # straight after a release, in the same time step: the interrupted process sees its
+            # request granted but not yet processed (it acts only after the release's cascade)
+            op['t'] = ops[-1]['t']
+            when = op['t']
+            ops[-1]['solo'] = False
+            solo = True
+        elif op['op'] in ('release', 'cancel', 'exit', 'interrupt'):
             # the effect of these on a request that is granted *later in the same time step*
             # depends on the order inside the step: they get a time step of their own
             if ops and ops[-1]['t'] == op['t']:
@@ -113,7 +126,7 @@ def make_case(seed, index, tier):
         op['solo'] = solo
         if op['op'] in ('put', 'get', 'request'):
             requests.append(number)
-        elif op['op'] in ('cancel', 'exit'):
+        elif op['op'] in ('cancel', 'exit', 'interrupt'):
             # cancelling twice is a usage error (ValueError in SimPy as well)
             requests.remove(op['target'])
         ops.append(op)
@@ -186,9 +199,10 @@ def run_model(case):
                 model.get({'op': number, 'request': op['target']})
             elif what == 'cancel':
                 model.cancel(op['target'])
-            elif what == 'exit':
+            elif what in ('exit', 'interrupt'):
                 # context manager exit: release if granted, then cancel
-                if op['target'] in model.granted:
+                if op['target'] in model.granted and kind in (
+                        'resource', 'priorityresource', 'preemptive'):
                     model.get({'op': number, 'request': op['target']})
                     model.granted.pop(number, None)     # the implicit release is not observed
                 model.cancel(op['target'])
@@ -201,7 +215,8 @@ def run_case(case):
     capacity = float('inf') if case['capacity'] == 'inf' else case['capacity']
     expected, model = run_model(case)
     sess = Session(budget_per_step=20000, budget_total=400000)
-    holder = {'requests': {}, 'procs': {}, 'preempted': [], 'snapshots': {}, 'bounds': []}
+    holder = {'requests': {}, 'procs': {}, 'preempted': [], 'snapshots': {}, 'bounds': [],
+              'interrupted': []}
 
     def build(env):
         if kind == 'container':
@@ -252,14 +267,21 @@ def run_case(case):
                     request = PreemptiveRequest(res, op['priority'], op['preempt'])
             requests[number] = request
             try:
-                yield request
-                yield forever
+                if kind == 'preemptive':
+                    yield request
+                    yield forever
+                else:
+                    with request:
+                        yield request
+                        yield forever
             except UsimInterrupt as interrupt:
                 cause = interrupt.cause
                 if isinstance(cause, Preempted):
                     by = next((n for n, proc in procs.items() if proc is cause.by), None)
                     holder['preempted'].append((number, by, cause.usage_since,
                                                 cause.resource is res, env.now))
+                else:
+                    holder['interrupted'].append((number, env.now))
 
         def driver():
             last = 0
@@ -278,6 +300,8 @@ def run_case(case):
                     requests[op['target']].cancel()
                 elif what == 'exit':
                     requests[op['target']].__exit__(None, None, None)
+                elif what == 'interrupt':
+                    procs[op['target']].interrupt('stop')
             yield env.timeout(1)
         env.process(driver())
         env.run(until=case['ops'][-1]['t'] + 2)
@@ -324,6 +348,7 @@ def run_case(case):
     if outcome[0] != 'ok':
         vio('run-failed', '%s history: run ended with %r' % (kind, outcome[1]))
     stats = {'histories': 1, 'snapshots_compared': 0, 'operations': len(case['ops']),
+             'interrupted_requesters': len(holder['interrupted']),
              'waited_requests': 0, 'preemptions': len(model.preemptions),
              'kinds': {kind: 1}}
     waited = False
